@@ -48,6 +48,7 @@ pub fn profile(name: &str) -> GenCfg {
             // evaluation, so the shape of the graph must not depend on values: no binds here
             c.binds = false;
             c.sibling_shape = 0;
+            c.kept_shape = 0;
             c.w_cutoff = 6;
             c.writers = false;
             c.adopt = false;
